@@ -102,8 +102,8 @@ TEXTS = {
   technique='Lean 4 proof (integer arithmetic) + differential correspondence',
  ),
  'C20': dict(
-  text='Proved in Lean: diffTree_applies (for trees with unique paths the reported changes applied to the previous set give the current set), filtered_applies (the same for filtered sets under every sane configuration), consume_healthy (when every referenced blob is present BlobCache succeeds and every referenced hash has a real slot downstream). Models of TreeDiff.Consume+filterDiffs and BlobCache.Consume are compared with the real items on every run.',
-  note=COMMON_NOTE + 'go-git tree diff and enry are parameters; language filter: known finding D10; first-commit submodules: D15.',
+  text='Proved in Lean: diffTree_applies (for trees with unique paths the reported changes applied to the previous set give the current set), filtered_applies (the same for filtered sets under every configuration without an empty path prefix; whitelist patterns that match the empty string included since fix 455a156), consume_healthy (when every referenced blob is present BlobCache succeeds and every referenced hash has a real slot downstream). Models of TreeDiff.Consume+filterDiffs and BlobCache.Consume are compared with the real items on every run.',
+  note=COMMON_NOTE + 'go-git tree diff and enry are parameters; language filter: known finding D10; first-commit submodules: D15; D17 (name filter vs the empty name of an absent side) repaired.',
   technique='Lean 4 proof + differential correspondence',
  ),
 }
